@@ -121,6 +121,17 @@ int main(int argc, char** argv) {
       else if (!strcmp(how, "tval"))   { keep1 = new(Table, Int, ET, $I(1), MK(ET)); o = get(keep1, $I(1)); wantT = ET; wantcls = "data"; }
       else if (!strcmp(how, "rkey"))   { keep1 = new(Tree, ET, Int, MK(ET), $I(1)); o = iter_init(keep1); wantT = ET; wantcls = "data"; }
       else if (!strcmp(how, "rval"))   { keep1 = new(Tree, Int, ET, $I(1), MK(ET)); o = get(keep1, $I(1)); wantT = ET; wantcls = "data"; }
+      /* the same four, but the container is a COPY of, or was ASSIGNED from, the one that was filled - and the other of its two
+         types is a 1-byte type, so the key and value sizes differ as much as they can */
+      else if (!strcmp(how, "c_tkey") || !strcmp(how, "a_tkey") || !strcmp(how, "c_rkey") || !strcmp(how, "a_rkey")
+            || !strcmp(how, "c_tval") || !strcmp(how, "a_tval") || !strcmp(how, "c_rval") || !strcmp(how, "a_rval")) {
+        var CT = how[2] == 't' ? Table : Tree; int iskey = how[3] == 'k';
+        keep2 = iskey ? new_with(CT, tuple(ET, Tiny, MK(ET), MK(Tiny))) : new_with(CT, tuple(Tiny, ET, MK(Tiny), MK(ET)));
+        if (how[0] == 'c') keep1 = copy(keep2);
+        else { keep1 = new_with(CT, tuple(Int, Int, $I(3), $I(4))); assign(keep1, keep2); }
+        o = iskey ? iter_init(keep1) : get(keep1, MK(Tiny));
+        wantT = ET; wantcls = "data";
+      }
       else if (!strcmp(how, "uitem"))  { keep2 = new(Int, $I(9)); keep1 = new(Tuple, keep2); o = get(keep1, $I(0)); wantT = Int; wantcls = "heap"; reg = 1; }
       else if (!strcmp(how, "it_array")) { keep1 = new(Array, ET, MK(ET), MK(ET)); o = iter_next(keep1, iter_init(keep1)); wantT = ET; wantcls = "data"; }
       else if (!strcmp(how, "it_list"))  { keep1 = new(List, ET, MK(ET), MK(ET)); o = iter_last(keep1); wantT = ET; wantcls = "data"; }
@@ -145,6 +156,14 @@ int main(int argc, char** argv) {
       unsigned char a[64], save[64]; memcpy(a, nb, n); memcpy(save, o, n);
       memset(o, 0x5C, n);
       if (memcmp(a, nb, n) != 0 || type_of(nb) != tt) us = 0;
+      memcpy(o, save, n);
+    }
+    if (us && keep1 && strlen(how) == 6 && how[1] == '_') {
+      /* writing every byte of this key / value must not touch the other half of the binding */
+      var nb = how[3] == 'k' ? get(keep1, o) : iter_init(keep1); var nbT = Tiny; size_t n = size(tt) <= 64 ? size(tt) : 64;
+      unsigned char a0 = *(unsigned char*)nb, save[64]; memcpy(save, o, n);
+      memset(o, 0x5C, n);
+      if (*(unsigned char*)nb != a0 || type_of(nb) != nbT || header(nb)->alloc != (var)AllocData) us = 0;
       memcpy(o, save, n);
     }
     ev_int("usable", us);
